@@ -77,6 +77,7 @@ def follow(e, cap=STEP_CAP) -> Trace:
     tr = Trace()
     seen = {}
     t, s = state_of(e)
+    grow_limit = max(600, 6 * len(s[1]) * len(s[1]))
     tr.terms.append(t)
     tr.states.append(s)
     seen[s] = 0
@@ -91,6 +92,12 @@ def follow(e, cap=STEP_CAP) -> Trace:
             break
         tr.steps += 1
         t, s = state_of(e)
+        if len(s[1]) > grow_limit:
+            # unbounded growth: no point in following further (every later step only gets slower)
+            tr.terms.append(t)
+            tr.states.append(s)
+            tr.capped = True
+            break
         if s in seen and tr.revisit is None:
             tr.revisit = (seen[s], tr.steps)
         seen.setdefault(s, tr.steps)
@@ -396,7 +403,8 @@ def analyse(label, t0, share, do_cuts, st: Stats, count=True, do_gen2=False):
             return p08, p11, tr
         # ---- C11 invariants
         if tr.capped:
-            p11.append(("cap", f"no normal form within {STEP_CAP} steps", None))
+            p11.append(("cap", f"no normal form within {tr.steps} steps (cap {STEP_CAP} steps; the term has "
+                               f"{M.size(tr.terms[-1])} nodes after starting from {N})", None))
         if tr.revisit:
             p11.append(("cycle", f"state after step {tr.revisit[1]} equals the state after step {tr.revisit[0]}", None))
         bound = 2 * N * N + 8
@@ -591,6 +599,8 @@ def start_items(tier):
         items.append(("BINBIN", t, False, True))
     for t in F.scale_terms(tier):
         items.append(("SCALE", t, False, M.size(t) <= 8))
+    for t in F.vanish_terms(tier):
+        items.append(("VANISH", t, False, M.size(t) <= 8))
     for t in F.twice_terms(tier):
         items.append(("TWICE", t, False, M.size(t) <= 8))
         items.append(("TWICE-DAG", t, True, False))
